@@ -11,7 +11,7 @@ From Flocq Require Import Core.Core IEEE754.BinarySingleNaN.
 Require Import JF.Base.F64 JF.Base.PyFloat.
 Import ListNotations.
 
-Definition ftwo : f64 := fadd fone fone.
+Definition ftwo : f64 := B754_finite (prec:=53) (emax:=1024) false 4503599627370496 (-51) eq_refl.   (* 2.0 *)
 
 (** [system_length_over_two = system_length / 2.0] (computed once by the setter; pure). *)
 Definition half (L : f64) : f64 := fdiv L ftwo.
